@@ -341,6 +341,47 @@ let cmd_mrg (args : string list) : string =
      | None -> "panic encode")
   | _ -> "err badcmd"
 
+(* ---------- diff_updates / encode_state_vector_from_update (Crdt/Diff.v) ---------- *)
+let cmd_dff (args : string list) : string =
+  match args with
+  | ["diff"; u; sv] ->
+    let (ub, sb) = (bytes_of_hex u, bytes_of_hex sv) in
+    let hyp = (match dff_hypotheses_v1 ub sb with Some ((w, c), k) -> " wf=" ^ (if w then "1" else "0") ^ " chain=" ^ (if c then "1" else "0") ^ " cut=" ^ (if k then "1" else "0") | None -> "") in
+    (match dff_diff_updates_v1 ub sb with
+     | Ok (o, _) -> "ok " ^ hex_of_bytes o ^ hyp
+     | Err e -> "err " ^ err_name e | Panic s -> "panic " ^ hex_of_n s | Fuel -> "fuel")
+  | ["sv"; u] -> pres print_sv (dff_state_vector_from_update_v1 (bytes_of_hex u))
+  | _ -> "err badcmd"
+
+(* ---------- TransactionMut::apply_delete on block lists (Crdt/ApplyDelete.v) ---------- *)
+(* store: "c=clk.len.K,clk.len.K;c=..." with K in L(ive item) D(eleted item) G(C) S(kip), "_" = empty; delete set: "c=s-e,s-e;..." *)
+let adl_parse_store (s : string) =
+  if s = "_" then [] else List.map (fun cs -> match String.split_on_char '=' cs with
+    | [c; bs] -> (n_of_hex c, if bs = "" then [] else List.map (fun b -> match String.split_on_char '.' b with
+        | [k; l; kd] -> ((n_of_hex k, n_of_hex l), (match kd with "L" -> Adl_live | "D" -> Adl_dead | "G" -> Adl_gc | _ -> Adl_skip))
+        | _ -> failwith "block") (String.split_on_char ',' bs))
+    | _ -> failwith "client") (String.split_on_char ';' s)
+let adl_parse_ds (s : string) =
+  if s = "_" then [] else List.map (fun cs -> match String.split_on_char '=' cs with
+    | [c; rs] -> (n_of_hex c, List.map (fun r -> match String.split_on_char '-' r with [a; b] -> ((n_of_hex a, n_of_hex b), ()) | _ -> failwith "range") (String.split_on_char ',' rs))
+    | _ -> failwith "client") (String.split_on_char ';' s)
+let adl_print_store st =
+  let cs = List.sort compare (List.map (fun (c, bs) -> (String.length (hex_of_n c), hex_of_n c, bs)) st) in
+  match cs with [] -> "_" | _ -> String.concat ";" (List.map (fun (_, c, bs) -> c ^ "=" ^ String.concat "," (List.map (fun ((k, l), kd) ->
+    hex_of_n k ^ "." ^ hex_of_n l ^ "." ^ (match kd with Adl_live -> "L" | Adl_dead -> "D" | Adl_gc -> "G" | Adl_skip -> "S")) bs)) cs)
+let adl_print_ds ds =
+  let cs = List.sort compare (List.map (fun (c, rs) -> (String.length (hex_of_n c), hex_of_n c, rs)) (List.filter (fun (_, rs) -> rs <> []) ds)) in
+  match cs with [] -> "_" | _ -> String.concat ";" (List.map (fun (_, c, rs) -> c ^ "=" ^ String.concat "," (List.map (fun ((a, b), ()) -> hex_of_n a ^ "-" ^ hex_of_n b) rs)) cs)
+let cmd_adl (args : string list) : string =
+  match args with
+  | ["apply"; st; ds] ->
+    let (st, ds) = (adl_parse_store st, adl_parse_ds ds) in
+    let hyp = " wf=" ^ (if adl_wf_store st then "1" else "0") ^ " ds=" ^ (if adl_ds_ok ds then "1" else "0") in
+    (match adl_apply_delete_chk st ds with
+     | Adl_ok (st', rest) -> "ok " ^ adl_print_store st' ^ " | " ^ adl_print_ds rest ^ hyp
+     | Adl_panic -> "panic" ^ hyp)
+  | _ -> "err badcmd"
+
 (* ---------- codecs ---------- *)
 let print_idm (v : (n * ((n * n) * ((n list * any) option) list) list) list) : string =
   let pa = function None -> "?" | Some (nm, vl) -> rawhex nm ^ "=" ^ print_any vl in
@@ -653,6 +694,8 @@ let dispatch (line : string) : string =
   | "CELL" :: args -> cmd_cell args
   | "LK" :: args -> cmd_lk args
   | "MRG" :: args -> cmd_mrg args
+  | "DFF" :: args -> cmd_dff args
+  | "ADL" :: args -> cmd_adl args
   | "DEC" :: args -> cmd_dec args
   | "ENC" :: args -> cmd_enc args
   | ["PING"] -> "ok pong"
